@@ -50,3 +50,7 @@ for d in sorted(glob.glob(os.path.join(V, 'seeded', '*-m*'))):
     json.dump(meta, open(os.path.join(d, 'meta.json'), 'w'), indent=1)
     print(name, verdict, sorted(kinds))
 sh('git', '-C', '/repo', 'worktree', 'remove', '--force', WT)
+# the scratch build output of this invocation (cargo target, traces, evidence copies) is several GiB: remove it
+_alt = (str(shard[0]) if shard else '')
+for _d in ('target_alt', 'target_noalloc_alt', 'harness_alt', 'traces_alt', 'evidence_alt'):
+    sh('rm', '-rf', os.path.join(V, 'build', _d + _alt))
